@@ -67,6 +67,11 @@ M = [
   'result["extra_args"] = self.extra_args', 'result["extra_args"] = str(self.extra_args)'),
  ('C03', 's02-empty-env-does-not-clear', 'rebench/model/exp_run_details.py',
   "env = none_or_dict(config.get('env', defaults.env))", "env = none_or_dict(config.get('env') or defaults.env)"),
+ ('C03', 's03-suite-location-setdefault', 'rebench/model/benchmark_suite.py',
+  'location = suite.get("location", executor.path)', 'location = suite.setdefault("location", executor.path)'),
+ ('C03', 's04-expanded-env-shared-and-published-early', 'rebench/model/run_id.py',
+  "        self._expandend_env = {\n            key: expand_user(value, False)\n            for key, value in self.benchmark.run_details.env.items()}",
+  "        details = self.benchmark.run_details\n        if getattr(details, 'expanded_env', None) is None:\n            details.expanded_env = dict(details.env)\n            for key, value in details.env.items():\n                if '~' in value:\n                    details.expanded_env[key] = expand_user(value, False)\n        self._expandend_env = details.expanded_env"),
  # ---------------------------------------------------------------- C20
  ('C20', 'n01-no-finally', 'rebench/rebench.py',
   "            finally:\n                restore_noise(denoise_result, show_denoise_warnings, self.ui)",
@@ -120,6 +125,9 @@ M = [
   '",".join(env.keys())', '",".join(self.__dict__.setdefault("_first_keys", list(env.keys())))'),
  ('C20', 'n16-kill-via-sudo-if-command-starts-with-sudo', 'rebench/subprocess_with_timeout.py',
   '    executable_name = args.split(" ", 1)[0]\n', '    executable_name = args.split(" ", 1)[0]\n    uses_sudo = uses_sudo or executable_name == "sudo"\n'),
+ ('C20', 'p04-parallel-fail-fast-on-worker-exception', 'rebench/executor.py',
+  "                if thread.exception is not None:\n                    exceptions.append(thread.exception)\n        except KeyboardInterrupt:",
+  "                if thread.exception is not None:\n                    exceptions.append(thread.exception)\n                    break\n        except KeyboardInterrupt:"),
  ('C20', 'n14-num-cores-minus-one', 'rebench/executor.py',
   'cmdline += "--num-cores " + str(num_cores) + " "', 'cmdline += "--num-cores " + str(num_cores - 1) + " "'),
 ]
